@@ -432,7 +432,7 @@ func libFamilies(tier string) []*core.Family {
 	budget := 0
 	if tier == "thorough" {
 		maxLen = 3
-		budget = 420
+		budget = 360
 	}
 	nt := tupleCount(maxLen)
 	const name = "e-lib"
